@@ -391,6 +391,8 @@ type Result struct {
 	Executions int
 	Decisions  int
 	Diverged   int
+	// DivergedExample: the first divergence message (diagnosis)
+	DivergedExample string
 	MaxBound   int
 	Complete   bool
 	Outcomes   map[string]int
@@ -435,6 +437,9 @@ func Explore(exec ExecFunc, bound int, maxExec int, stop func() bool) (Result, e
 		if err != nil {
 			if _, div := err.(ErrDiverged); div {
 				res.Diverged++
+				if res.DivergedExample == "" {
+					res.DivergedExample = fmt.Sprintf("prefix %v: %v", it.prefix, err)
+				}
 				res.Complete = false
 				continue
 			}
